@@ -1,0 +1,117 @@
+//! `cfg(libp2p_verif)` hooks for the verification harness (property C37): the `Entry` API,
+//! `KBucketsTable::{bucket, iter, take_applied_pending}` and a read-only dump of the buckets on
+//! the raw-key table of `verif_c38`. Only calls existing items.
+
+use super::{verif_c38::VerifTable, *};
+
+/// What `KBucketsTable::entry(key)` resolved to (before the requested action was applied).
+#[derive(Debug, Clone, PartialEq, Eq)]
+pub enum VerifEntry {
+    /// `entry` returned `None` (local key)
+    Local,
+    Absent,
+    Present { value: u32, status: NodeStatus },
+    Pending { value: u32, status: NodeStatus },
+}
+
+/// Read-only view of one bucket: `KBucket::iter()` and `KBucket::pending()`.
+#[derive(Debug, Clone)]
+pub struct VerifBucket {
+    pub index: usize,
+    pub nodes: Vec<(KeyBytes, u32, NodeStatus)>,
+    pub pending: Option<(KeyBytes, u32, NodeStatus)>,
+}
+
+fn classify(entry: &mut Option<Entry<'_, KeyBytes, u32>>) -> VerifEntry {
+    match entry {
+        None => VerifEntry::Local,
+        Some(Entry::Absent(_)) => VerifEntry::Absent,
+        Some(Entry::Present(e, status)) => VerifEntry::Present {
+            value: *e.value(),
+            status: *status,
+        },
+        Some(Entry::Pending(e, status)) => VerifEntry::Pending {
+            value: *e.value(),
+            status: *status,
+        },
+    }
+}
+
+impl VerifTable {
+    /// `table.entry(key).view()` classification
+    pub fn lookup(&mut self, key: &KeyBytes) -> VerifEntry {
+        let mut entry = self.inner.entry(key);
+        classify(&mut entry)
+    }
+
+    /// `table.entry(key)`; `Present(e) => e.update(status)`, `Pending(e) => e.update(status)`.
+    pub fn update(&mut self, key: &KeyBytes, status: NodeStatus) -> VerifEntry {
+        let mut entry = self.inner.entry(key);
+        let kind = classify(&mut entry);
+        match entry {
+            Some(Entry::Present(mut e, _)) => e.update(status),
+            Some(Entry::Pending(e, _)) => {
+                e.update(status);
+            }
+            _ => {}
+        }
+        kind
+    }
+
+    /// `table.entry(key)`; `Present(e) => e.remove()`, `Pending(e) => e.remove()`.
+    /// Returns the entry kind and the removed `(value, status)`.
+    pub fn remove(&mut self, key: &KeyBytes) -> (VerifEntry, Option<(u32, NodeStatus)>) {
+        let mut entry = self.inner.entry(key);
+        let kind = classify(&mut entry);
+        let removed = match entry {
+            Some(Entry::Present(e, _)) => Some(e.remove()),
+            Some(Entry::Pending(e, _)) => Some(e.remove()),
+            _ => None,
+        };
+        (kind, removed.map(|v| (v.node.value, v.status)))
+    }
+
+    /// `table.bucket(key)` → `(index, num_entries, has_pending)`
+    pub fn bucket_info(&mut self, key: &KeyBytes) -> Option<(usize, usize, bool)> {
+        self.inner
+            .bucket(key)
+            .map(|b| (b.index.get(), b.num_entries(), b.has_pending()))
+    }
+
+    /// `table.iter()` consumed → `(index, num_entries, has_pending)` per bucket
+    pub fn iter_info(&mut self) -> Vec<(usize, usize, bool)> {
+        self.inner
+            .iter()
+            .map(|b| (b.index.get(), b.num_entries(), b.has_pending()))
+            .collect()
+    }
+
+    /// `table.take_applied_pending()` as `((key, value) inserted, (key, value) evicted)`
+    pub fn take_applied_pending(&mut self) -> Option<((KeyBytes, u32), Option<(KeyBytes, u32)>)> {
+        self.inner.take_applied_pending().map(|a| {
+            (
+                (a.inserted.key, a.inserted.value),
+                a.evicted.map(|n| (n.key, n.value)),
+            )
+        })
+    }
+
+    /// Read-only: the non-empty buckets (does NOT apply pending nodes).
+    pub fn raw_dump(&self) -> Vec<VerifBucket> {
+        self.inner
+            .buckets
+            .iter()
+            .enumerate()
+            .filter(|(_, b)| b.num_entries() > 0 || b.pending().is_some())
+            .map(|(index, b)| VerifBucket {
+                index,
+                nodes: b.iter().map(|(n, s)| (n.key, n.value, s)).collect(),
+                pending: b
+                    .pending()
+                    .cloned()
+                    .map(|p| (p.status(), p.into_node()))
+                    .map(|(s, n)| (n.key, n.value, s)),
+            })
+            .collect()
+    }
+}
